@@ -46,7 +46,7 @@ def run(prop, tier, seed, known):
         if msg:
             fails.append('%s: %s' % (desc, msg))
 
-    labels_pool = ['a', 'verse 1', 'C:maj', 'chorus  two  spaces', 'x#y', 'Ünï cødé', '1', 'end.']
+    labels_pool = ['a', 'verse 1', 'C:maj', 'chorus  two  spaces', 'x#y', 'Ünï cødé', '1', 'end.', 'tom #2', 'hi-hat # open', 'a %b', '50% #']
     try:
         for it in range(30 if tier == 'quick' else 300):
             k = rng.randint(1, 5)
